@@ -10,13 +10,15 @@ the dump of `Hugr.load_json` of it and the document that one gives; pydantic's v
 identity; and the verdict of the published strict JSON schema on the document (jsonschema under
 python3-vt, one server process per run).
 
-Mutation histories are restricted to what the graph store handles correctly today (defects D4-D6 of
-DESIGN.md section 5 are being repaired elsewhere): a node is deleted only when it has no children,
-no order links, at most one link per port and is the only link of each peer port; a link is deleted
-only when it is the only link of both its ports.  A HUGR whose queries are inconsistent anyway
-(a link endpoint on a dead node, linked_ports disagreeing with links()) is skipped and counted."""
+Mutation histories (second pass; D4-D6 are repaired in the repository): delete_node of any childless node
+other than the root (multi-linked ports, order links, unlinked counted ports included), delete_link of any
+link (order links included).  Every history is also run on the store model (coq/model/Graph.v through
+coq/model/HugrHist.v): kind "hist" = Hugr(root_op) followed by a history (case CHist), kind "hugr" with
+mutations = the history applied to the builder program's HUGR, whose store state is rebuilt from the
+public queries (case CMut).  corr demands that the model's view after the history is exactly the dump."""
 from __future__ import annotations
 
+import copy
 import json
 import os
 import random
@@ -68,7 +70,9 @@ MD_VALUES = progs.MD_VALUES
 MAX_NODES = 260
 MUT_OPS = [["noop", "B"], ["not"], ["divmod"], ["mktup", ["B", "I"]], ["untup", ["B", "B", "Q"]],
            ["tag", 1, ["sum", [["B"], []]]], ["custom", "mut.op", ["B"], ["I", "I"], "a description"],
-           ["const", ["true"]], ["const", ["int", 5, 7]], ["const", ["tuple", [["true"], ["false"]]]]]
+           ["const", ["true"]], ["const", ["int", 5, 7]], ["const", ["tuple", [["true"], ["false"]]]],
+           # required-but-nullable schema fields: CustomConst.v = null, BoundedNatParam.bound = null (also nested)
+           ["const", ["extnull"]], ["funcdecl", "poly.nat", "nat"], ["funcdecl", "poly.list", "listnat"]]
 
 
 def usable_seed(seed, root=None):
@@ -80,11 +84,43 @@ def usable_seed(seed, root=None):
         return False
 
 
+# containers, so that raw histories build hierarchies of depth > 1
+HIST_OPS = MUT_OPS + [["dfg", ["B"], ["B", "I"]], ["dfg", [], []], ["case", ["B"], ["B"]], ["input", ["B", "I"]],
+                      ["output", ["B"]], ["module"]]
+HIST_ROOTS = [["module"], ["module"], ["dfg", ["B"], ["B"]], ["case", [], ["I"]]]
+
+
 def mk_mut_op(spec):
     from hugr import ops
-    if spec[0] == "const":
+    k = spec[0]
+    if k == "const" and spec[1][0] == "extnull":
+        from hugr import tys, val
+        return ops.Const(val.Extension("ConstNothing", tys.Unit, None, ["verif.ext"]))
+    if k == "const":
         return ops.Const(progs.mk_val(spec[1]))
+    if k == "funcdecl":
+        from hugr import tys
+        params = {"nat": [tys.TypeTypeParam(tys.TypeBound.Any), tys.BoundedNatParam()],
+                  "listnat": [tys.ListParam(tys.BoundedNatParam()), tys.TupleParam([tys.BoundedNatParam(), tys.BoundedNatParam(3)])]}[spec[2]]
+        return ops.FuncDecl(spec[1], tys.PolyFuncType(params, tys.FunctionType([tys.Bool], [tys.Bool])))
+    if k == "dfg":
+        return ops.DFG([progs.mk_ty(t) for t in spec[1]], [progs.mk_ty(t) for t in spec[2]])
+    if k == "case":
+        return ops.Case([progs.mk_ty(t) for t in spec[1]], [progs.mk_ty(t) for t in spec[2]])
+    if k == "input":
+        return ops.Input([progs.mk_ty(t) for t in spec[1]])
+    if k == "output":
+        return ops.Output([progs.mk_ty(t) for t in spec[1]])
+    if k == "module":
+        return ops.Module()
     return progs.mk_op(spec)
+
+
+def spec_opcode(spec):
+    """the encoded form of the operation a history command adds (computed without a Hugr)"""
+    from hugr.hugr.base import NodeData
+    from hugr.hugr.node_port import Node
+    return opcode(json.loads(NodeData(mk_mut_op(spec), None)._to_serial(Node(0)).model_dump_json()))
 
 
 def named_program(name):
@@ -144,6 +180,20 @@ def named_program(name):
                               type_params=[tys.TypeTypeParam(tys.TypeBound.Any)])
         f.set_outputs(*f.inputs())
         return m.hugr
+    if name == "poly_nat_unbounded":           # seeded C02-c: BoundedNatParam.bound = null is a required schema field
+        m = Module()
+        f = m.define_function("idn", [tys.Bool], [tys.Bool],
+                              type_params=[tys.TypeTypeParam(tys.TypeBound.Any), tys.BoundedNatParam()])
+        f.set_outputs(*f.inputs())
+        m.declare_function("ext", tys.PolyFuncType([tys.ListParam(tys.BoundedNatParam())], tys.FunctionType.empty()))
+        g = m.define_function("id8", [tys.Bool], [tys.Bool], type_params=[tys.BoundedNatParam(8)])
+        g.set_outputs(*g.inputs())
+        return m.hugr
+    if name == "ext_const_null":               # seeded C02-c: CustomConst.v = null is a required schema field
+        h = Hugr()
+        h.add_const(val.Extension("ConstNothing", tys.Unit, None, ["my_ext"]))
+        h.add_const(val.Extension("ConstSomething", tys.Unit, {"a": None, "b": [None, 0]}, ["my_ext"]))
+        return h
     if name == "custom_desc":                  # D10: description of an extension operation
         d = Dfg(tys.Bool)
         (b,) = d.inputs()
@@ -166,75 +216,72 @@ def port_links(h, port):
 
 
 def safe_to_delete_node(h, n):
-    """delete_node works today only for a childless node without order links whose every counted port
-    carries exactly one link which is also the only link of its peer port (an unlinked counted port makes
-    delete_node raise KeyError half-way, a multi-linked one leaves hidden or dangling links: D5/D6)"""
-    if n == h.root or h.children(n):
-        return False
-    if list(h.outgoing_order_links(n)) or list(h.incoming_order_links(n)):
-        return False
-    for k in range(h.num_out_ports(n)):
-        ls = port_links(h, n.out(k))
-        if len(ls) != 1 or any(len(port_links(h, p)) != 1 for p in ls):
-            return False
-    for k in range(h.num_in_ports(n)):
-        ls = port_links(h, n.inp(k))
-        if len(ls) != 1 or any(len(port_links(h, p)) != 1 for p in ls):
-            return False
-    # every link touching the node must be visible through its counted ports
-    for s, t in h.links():
-        if s.node == n and not (0 <= s.offset < h.num_out_ports(n)):
-            return False
-        if t.node == n and not (0 <= t.offset < h.num_in_ports(n)):
-            return False
-    return True
+    """inside the guard of the store (C04): a childless node other than the root"""
+    return n != h.root and not h.children(n)
 
 
-def safe_to_delete_link(h, s, t):
-    return port_links(h, s) == [t] and port_links(h, t) == [s]
+SRC_KINDS = ("add_node", "add_link", "add_order", "delete_node", "delete_link")
 
 
 def apply_mut(h, m):
-    """Applies one mutation if it is applicable and inside the restriction; returns True if applied."""
-    from hugr.hugr.node_port import Node
+    """Applies one mutation if it is applicable (its node arguments are live, delete_node inside the guard).
+    Returns (None, m) if it was not applied, else (outcome, mutation as applied): outcome "ok" if the call
+    returned, the exception class name if it raised.  An insert carries the history of the inserted HUGR; the
+    calls of it that were applicable are what the applied form records."""
+    from hugr.hugr import Hugr
     live = {n.idx: n for n in h}
     k = m[0]
-    if True:
-        if k == "add_node":
-            _, spec, parent, md, nouts = m
-            if parent not in live:
-                return False
-            h.add_node(mk_mut_op(spec), live[parent], num_outs=nouts, metadata=md)
-        elif k == "add_link":
-            _, s, so, d, do = m
-            if s not in live or d not in live:
-                return False
-            h.add_link(live[s].out(so), live[d].inp(do))
-        elif k == "add_order":
-            _, s, d = m
-            if s not in live or d not in live:
-                return False
-            h.add_order_link(live[s], live[d])
-        elif k == "delete_node":
-            if m[1] not in live or not safe_to_delete_node(h, live[m[1]]):
-                return False
-            h.delete_node(live[m[1]])
-        elif k == "delete_link":
-            _, s, so, d, do = m
-            if s not in live or d not in live:
-                return False
-            sp, dp = live[s].out(so), live[d].inp(do)
-            if not safe_to_delete_link(h, sp, dp):
-                return False
-            h.delete_link(sp, dp)
-        elif k == "set_md":
-            _, n, key, v = m
-            if n not in live:
-                return False
-            h[live[n]].metadata[key] = v
-        else:
-            raise ValueError(m)
-    return True
+    call = None
+    if k == "add_node":
+        _, spec, parent, md, nouts = m
+        if parent in live:
+            call = lambda: h.add_node(mk_mut_op(spec), live[parent], num_outs=nouts, metadata=copy.deepcopy(md))
+    elif k == "add_link":
+        _, s, so, d, do = m
+        if s in live and d in live:
+            call = lambda: h.add_link(live[s].out(so), live[d].inp(do))
+    elif k == "add_order":
+        _, s, d = m
+        if s in live and d in live:
+            call = lambda: h.add_order_link(live[s], live[d])
+    elif k == "delete_node":
+        if m[1] in live and safe_to_delete_node(h, live[m[1]]):
+            call = lambda: h.delete_node(live[m[1]])
+    elif k == "delete_link":
+        _, s, so, d, do = m
+        if s in live and d in live:
+            call = lambda: h.delete_link(live[s].out(so), live[d].inp(do))
+    elif k == "set_md":
+        _, n, key, v = m
+        if n in live:
+            call = lambda: h[live[n]].metadata.__setitem__(key, copy.deepcopy(v))
+    elif k == "insert":
+        _, rootspec, src, parent = m
+        if parent in live:
+            b = Hugr(mk_mut_op(rootspec))
+            src_applied, _ = run_muts(b, [x for x in src if x[0] in SRC_KINDS])
+            m = ["insert", rootspec, src_applied, parent]
+            call = lambda: h.insert_hugr(b, live[parent])
+    else:
+        raise ValueError(m)
+    if call is None:
+        return None, m
+    try:
+        call()
+    except Exception as e:
+        return type(e).__name__, m
+    return "ok", m
+
+
+def run_muts(h, muts):
+    """-> (applied mutations, outcome of each)"""
+    applied, rets = [], []
+    for m in muts:
+        r, m2 = apply_mut(h, m)
+        if r is not None:
+            applied.append(m2)
+            rets.append(r)
+    return applied, rets
 
 
 def port_counts(h, n):
@@ -245,30 +292,56 @@ def port_counts(h, n):
     return reader_ports(o)
 
 
-def gen_muts(rng, h, n, off_port=False, reuse=False):
-    """Generates (and applies to h) up to n mutations.  Links are added on ports the operations have
-    (unless off_port) so that the premise of C03's addressing clause holds.  Unless `reuse`, no node is
-    added once a node has been deleted (histories without index reuse)."""
-    muts = []
+def gen_muts(rng, h, n, off_port=False, reuse=False, palette=None, inserts=False, src_only=False):
+    """Generates (and applies to h) up to n mutations; -> (mutations applied, outcome of each).  Links are added on
+    ports the operations have (unless off_port) so that the premise of C03's addressing clause holds.  Unless
+    `reuse`, no node is added once a node has been deleted (histories without index reuse).  delete_node picks any
+    childless non-root node, delete_link any link (order links included); add_link prefers ports that already
+    carry a link, so that multi-linked ports are common."""
+    palette = palette or MUT_OPS
+    muts, rets = [], []
     deleted = False
+    pc_cache = {}
+
+    def pcs_of(nodes):
+        out = {}
+        for x in nodes:
+            key = (x.idx, id(h[x].op))
+            if key not in pc_cache:
+                pc_cache[key] = port_counts(h, x)
+            out[x] = pc_cache[key]
+        return out
+
     for _ in range(n):
         nodes = list(h)
         r = rng.random()
         m = None
-        if r < 0.3:
+        if inserts and r < 0.06:
+            if deleted and not reuse:
+                continue
+            # insert_hugr of a HUGR built by its own raw history (without index reuse, links on existing ports)
+            from hugr.hugr import Hugr
+            rootspec = rng.choice(HIST_ROOTS[2:] + [["dfg", [], []]])
+            src, _ = gen_muts(rng, Hugr(mk_mut_op(rootspec)), rng.randint(1, 8), palette=palette, src_only=True)
+            containers = [x for x in nodes if h.children(x) or x == h.root]
+            m = ["insert", rootspec, src, rng.choice(containers if containers and rng.random() < 0.7 else nodes).idx]
+        elif r < 0.3:
             if deleted and not reuse:
                 continue
             containers = [x for x in nodes if h.children(x) or x == h.root]
-            parent = rng.choice(containers if containers and rng.random() < 0.8 else nodes)
-            spec = rng.choice(MUT_OPS)
+            parent = rng.choice(containers if containers and rng.random() < 0.7 else nodes)
+            spec = rng.choice(palette)
             md = {rng.choice(["k", "name", "ü", ""]): rng.choice(MD_VALUES)} if rng.random() < 0.4 else None
             m = ["add_node", spec, parent.idx, md, rng.choice([None, None, 0, 1, 3])]
-        elif r < 0.55:
+        elif r < 0.5:
             cands = [x for x in nodes if safe_to_delete_node(h, x)]
             if cands:
-                m = ["delete_node", rng.choice(cands).idx]
+                # prefer nodes that carry links (fan-outs, order links)
+                linked = {p.node.idx for st in h.links() for p in st}
+                hot = [x for x in cands if x.idx in linked]
+                m = ["delete_node", rng.choice(hot if hot and rng.random() < 0.7 else cands).idx]
         elif r < 0.7:
-            pcs = {x: port_counts(h, x) for x in nodes}
+            pcs = pcs_of(nodes)
             srcs = [(x, k) for x in nodes if pcs[x] for k in range(pcs[x][3] + pcs[x][4])]
             dsts = [(x, k) for x in nodes if pcs[x] for k in range(pcs[x][1] + pcs[x][2])]
             if off_port and rng.random() < 0.5:
@@ -276,25 +349,35 @@ def gen_muts(rng, h, n, off_port=False, reuse=False):
                 m = ["add_link", x.idx, rng.randint(0, 4), y.idx, rng.randint(0, 4)]
             elif srcs and dsts:
                 (x, a), (y, b) = rng.choice(srcs), rng.choice(dsts)
+                ls = [(s_, t_) for s_, t_ in h.links() if s_.offset >= 0]
+                if ls and rng.random() < 0.5:
+                    s_, t_ = rng.choice(ls)
+                    if rng.random() < 0.5 and (s_.node, s_.offset) in srcs:
+                        x, a = s_.node, s_.offset           # one more link out of a linked port
+                    elif (t_.node, t_.offset) in dsts:
+                        y, b = t_.node, t_.offset           # one more link into a linked port
                 m = ["add_link", x.idx, a, y.idx, b]
-        elif r < 0.82:
-            pcs = {x: port_counts(h, x) for x in nodes}
+        elif r < 0.8:
+            pcs = pcs_of(nodes)
             ok = [x for x in nodes if (pcs[x] and pcs[x][0]) or off_port]
             if len(ok) >= 2:
                 x, y = rng.sample(ok, 2)
                 m = ["add_order", x.idx, y.idx]
         elif r < 0.9:
-            ls = [(s, t) for s, t in h.links() if s.offset >= 0 and safe_to_delete_link(h, s, t)]
+            ls = list(h.links())
             if ls:
-                s, t = rng.choice(ls)
-                m = ["delete_link", s.node.idx, s.offset, t.node.idx, t.offset]
-        else:
+                s_, t_ = rng.choice(ls)
+                m = ["delete_link", s_.node.idx, s_.offset, t_.node.idx, t_.offset]
+        elif not src_only:
             x = rng.choice(nodes)
             m = ["set_md", x.idx, rng.choice(["k", "x y", "ß"]), rng.choice(MD_VALUES)]
-        if m is not None and apply_mut(h, m):
-            muts.append(m)
-            deleted = deleted or m[0] == "delete_node"
-    return muts
+        if m is not None:
+            res, m = apply_mut(h, m)
+            if res is not None:
+                muts.append(m)
+                rets.append(res)
+                deleted = deleted or m[0] == "delete_node"
+    return muts, rets
 
 
 def consistent(h):
@@ -321,6 +404,57 @@ def consistent(h):
             if c.idx not in live:
                 return "child is a deleted node"
     return None
+
+
+def store_snapshot(h):
+    """The store state of a HUGR as its public queries show it: the dump plus, for every link in links() order,
+    the sub-offsets of its two ports (its position in linked_ports of either end).  None when the HUGR has
+    deleted nodes (the free stack is not observable), an incomplete operation, or two links between the same
+    pair of ports (their sub-offsets cannot be told apart)."""
+    d = hobs.dump(h)
+    idxs = [n["idx"] for n in d["nodes"]]
+    if idxs != list(range(len(idxs))) or any("error" in n["op"] for n in d["nodes"]):
+        return None
+    seen, fwd, lo, li = set(), [], {}, {}
+    for s_, t_ in h.links():
+        a, b = (s_.node.idx, s_.offset), (t_.node.idx, t_.offset)
+        if (a, b) in seen:
+            return None
+        seen.add((a, b))
+        if a not in lo:
+            lo[a] = [(p.node.idx, p.offset) for p in h.linked_ports(s_)]
+        if b not in li:
+            li[b] = [(p.node.idx, p.offset) for p in h.linked_ports(t_)]
+        if b not in lo[a] or a not in li[b]:
+            return None
+        fwd.append([a[0], a[1], lo[a].index(b), b[0], b[1], li[b].index(a)])
+    return {"dump": d, "fwd": fwd}
+
+
+def port_view(h, f=None):
+    """{(direction, node, offset): sorted linked ports} over every counted port, the order ports and every port
+    links() mentions; node indices mapped through f"""
+    f = f or (lambda i: i)
+    ports = set()
+    for n in h:
+        for k in range(-1, h.num_out_ports(n)):
+            ports.add(("o", n.idx, k))
+        for k in range(-1, h.num_in_ports(n)):
+            ports.add(("i", n.idx, k))
+    for s_, t_ in h.links():
+        ports.add(("o", s_.node.idx, s_.offset))
+        ports.add(("i", t_.node.idx, t_.offset))
+    live = {n.idx: n for n in h}
+    out = {}
+    for d, i, k in ports:
+        if i not in live:
+            out[(d, i, k)] = "dead"
+            continue
+        port = live[i].out(k) if d == "o" else live[i].inp(k)
+        peers = sorted((f(p.node.idx), p.offset) for p in h.linked_ports(port))
+        if peers:
+            out[(d, f(i), k)] = peers
+    return out
 
 
 # ----------------------------------------------------------------------------- schema validation
@@ -444,7 +578,8 @@ def observe_hugr(h, ctx, schema=True):
     o = {}
     bad = consistent(h)
     if bad:
-        return {"skip": bad}
+        # (first pass: skipped.)  With D4-D6 repaired this is not expected; the case goes on and is judged
+        o["inconsistent"] = bad
     o["a"] = hobs.dump(h)
     if any("error" in n["op"] for n in o["a"]["nodes"]):
         return {"skip": "incomplete operation"}
@@ -472,6 +607,13 @@ def observe_hugr(h, ctx, schema=True):
         o["load_error"] = type(e).__name__
         return o
     o["b"] = hobs.dump(h2)
+    try:
+        # the links every port shows through linked_ports, before and after (nodes renumbered by rank)
+        rank = {n["idx"]: k for k, n in enumerate(o["a"]["nodes"])}
+        o["ports_same"] = bool(port_view(h, lambda i: rank.get(i, -1 - i)) == port_view(h2))
+    except Exception as e:
+        o["ports_same"] = False
+        o["ports_error"] = type(e).__name__
     try:
         j2 = h2.to_json()
         doc2 = json.loads(j2)
@@ -533,6 +675,83 @@ class Lit:
             meta = "(Some %s)" % glist("None" if m is None else "(Some %s)" % self.mdv(m) for m in v["metadata"])
         return "(Sr %s %s %s)" % (nodes, edges, meta)
 
+    def spec_opinfo(self, spec):
+        key = json.dumps(spec)
+        cache = self.__dict__.setdefault("_spec_codes", {})
+        if key not in cache:
+            cache[key] = spec_opcode(spec)
+        return self.opinfo(cache[key])
+
+    @staticmethod
+    def _alloc(sh):
+        if sh["free"]:
+            return sh["free"].pop()
+        sh["size"] += 1
+        return sh["size"] - 1
+
+    def cmds(self, start, applied, rets, basic=False):
+        """The history as commands of coq/run/C02Run.v (basic=True: the calls of an inserted HUGR's own history).
+        Metadata assignment passes the whole dictionary after the assignment, so the metadata (and, for insert_hugr,
+        the parent) of every node is tracked here from the case data alone: `start` = {idx: [metadata, parent]};
+        the index of an added node follows the allocation rule (the last freed index, else the next one), the nodes
+        of an inserted HUGR are added in index order, not yet inserted ancestors first.
+        -> (commands, outcomes, final tracking state)"""
+        sh = {"nodes": {i: [dict(v[0]), v[1]] for i, v in start.items()}, "free": [], "size": (max(start) + 1) if start else 0}
+        A, L, O, DN, DL = ("BAdd", "BLink", "BOrd", "BDelN", "BDelL") if basic else ("HAdd", "HLink", "HOrd", "HDelN", "HDelL")
+        out = []
+        for m, r in zip(applied, rets):
+            k = m[0]
+            if k == "add_node":
+                _, spec, parent, mdv, nouts = m
+                out.append("(%s %s (Some %d) %s %s)" % (A, self.spec_opinfo(spec), parent,
+                           "None" if nouts is None else "(Some %s)" % fw.gZ(nouts), self.mdv(mdv or {})))
+                if r == "ok":
+                    sh["nodes"][self._alloc(sh)] = [dict(mdv or {}), parent]
+            elif k == "add_link":
+                out.append("(%s %d %s %d %s)" % (L, m[1], fw.gZ(m[2]), m[3], fw.gZ(m[4])))
+            elif k == "add_order":
+                out.append("(%s %d %d)" % (O, m[1], m[2]))
+            elif k == "delete_node":
+                out.append("(%s %d)" % (DN, m[1]))
+                if r == "ok":
+                    sh["free"].append(m[1])
+                    sh["nodes"].pop(m[1], None)
+            elif k == "delete_link":
+                out.append("(%s %d %s %d %s)" % (DL, m[1], fw.gZ(m[2]), m[3], fw.gZ(m[4])))
+            elif k == "set_md":
+                _, n, key, v = m
+                cur = sh["nodes"].setdefault(n, [{}, None])[0]
+                cur[key] = v
+                out.append("(HMeta %d %s)" % (n, self.mdv(cur)))
+            elif k == "insert":
+                _, rootspec, src, parent = m
+                bc, _, bsh = self.cmds({0: [{}, None]}, src, ["ok"] * len(src), basic=True)
+                out.append("(HIns %s %s (Some %d))" % (self.spec_opinfo(rootspec), bc, parent))
+                if r == "ok":
+                    mapping = {}
+                    for n in sorted(bsh["nodes"]):
+                        chain, cur = [], n
+                        while cur is not None and cur not in mapping and cur in bsh["nodes"] and len(chain) <= len(bsh["nodes"]):
+                            chain.append(cur)
+                            cur = bsh["nodes"][cur][1]
+                        for c in reversed(chain):
+                            bp = bsh["nodes"][c][1]
+                            mapping[c] = self._alloc(sh)
+                            sh["nodes"][mapping[c]] = [dict(bsh["nodes"][c][0]), parent if bp is None else mapping.get(bp)]
+            else:
+                raise ValueError(m)
+        return glist(out), glist(gbool(r == "ok") for r in rets), sh
+
+    def store(self, start):
+        d = start["dump"]
+        nodes = []
+        for n in d["nodes"]:
+            par = "None" if n["parent"] is None else "(Some %d)" % n["parent"]
+            nodes.append("(Some (Gd %s %s %s %s %s %s))" % (self.opinfo(opcode(n["op"])), par, fw.gZ(n["nin"]), fw.gZ(n["nout"]),
+                         glist(str(c) for c in n["children"]), self.mdv(n["md"])))
+        fwd = glist("(Sl %d %s %d %d %s %d)" % (a, fw.gZ(x), i, b, fw.gZ(y), j) for a, x, i, b, y, j in start["fwd"])
+        return "(St %s %s %d)" % (glist(nodes), fwd, d["root"])
+
     def rt(self, o):
         h = self.hugr(o["a"])
         doc = "(Some d)" if "doc" in o else "None"
@@ -553,7 +772,8 @@ class Lit:
         else:
             load, dec = "None", "[]"
         header_ok = o.get("header", [None, None])[0] == "live" and isinstance(o.get("header", [None, None])[1], str)
-        body = "(Rt %s %s %s %s %s %s %s)" % (h, doc, load, dec, gbool(o.get("json_same", False) and header_ok),
+        same = o.get("json_same", False) and header_ok and o.get("ports_same", True) and "inconsistent" not in o
+        body = "(Rt %s %s %s %s %s %s %s)" % (h, doc, load, dec, gbool(same),
                                              gbool(o.get("pyd", False)), gbool(o.get("schema", "OK") == "OK"))
         if "doc" in o:
             return "(let d : serialT := %s in %s)" % (self.serial(o["doc"]), body)
@@ -575,7 +795,12 @@ def classify_guard(a):
         out.append("index-reuse:sibling-order")
     info = {i: reader_ports(n["op"]) for i, n in nodes.items()}
 
+    if any(s not in nodes or d not in nodes for s, so, d, do in a["links"]):
+        out.append("link-on-deleted-node")
+
     def bad_port(i, k, inp):
+        if i not in info:
+            return False
         ordp, vi, si, vo, so = info[i]
         if not ordp:
             return k == -1
@@ -583,6 +808,19 @@ def classify_guard(a):
     if any(bad_port(s, so, False) or bad_port(d, do, True) for s, so, d, do in a["links"]):
         out.append("link-on-missing-port")
     return out
+
+
+def history_reuses(muts):
+    """an index can only be reused by an add_node that follows a delete_node"""
+    deleted = False
+    for m in muts:
+        if m[0] == "delete_node":
+            deleted = True
+        elif m[0] in ("add_node", "insert") and deleted:
+            return True
+        if m[0] == "insert" and history_reuses(m[2]):
+            return True
+    return False
 
 
 class RT(fw.Prop):
@@ -593,13 +831,16 @@ class RT(fw.Prop):
     shard = 16
     which = 2
     rule = ("HUGRs built by generated well-formed builder programs (harness/progs.py) followed by a public-API "
-            "mutation history; non-trivial = the HUGR has non-empty metadata, an order link or a hole in its "
-            "node table (deleted node), and at least 4 nodes")
+            "mutation history, and HUGRs built by a raw public-API history from Hugr(root_op); non-trivial = the HUGR "
+            "has non-empty metadata, an order link or a hole in its node table (deleted node), and at least 4 nodes")
     trusted = [
         "harness/props/c02.py: reader_ports (port counts of an encoded operation, transcribed from hugr-core/src/ops.rs "
         "and ops/dataflow.rs, ops/controlflow.rs; fails closed on unknown tags); interning of encoded operations and "
         "metadata by canonical JSON text",
         "pydantic (JSON text <-> serial models) is outside the model; validate(dump(s)) == s is checked per case",
+        "harness/props/c02.py: store_snapshot rebuilds the store state of a builder program's HUGR from the public queries "
+        "(sub-offsets = positions in linked_ports; free stack empty because the node table has no hole); Lit.cmds tracks "
+        "metadata dictionaries and the indices of added / inserted nodes from the case data by the allocation rule",
         "jsonschema 4.26 (python3-vt) decides schema validity; its oneOf is short-cut through the discriminator only "
         "where the mapped branches are verified mutually exclusive (harness/c03_schema_server.py); thorough tier "
         "re-validates a sample with the plain validator",
@@ -607,7 +848,8 @@ class RT(fw.Prop):
     assumptions = [
         "operations round-trip through their encoding (C05): enc (dec (enc o)) = enc o and the port counts of dec (enc o) "
         "equal those of o (Section hypotheses of the theorems)",
-        "mutation histories avoid the delete_link/delete_node defects D4-D6 (multi-linked ports); inconsistent HUGRs are skipped and counted",
+        "the history theorems start from Hugr(root_op); for histories applied to a builder program's HUGR the guard is "
+        "evaluated per case (builder programs are not modelled call by call)",
     ]
 
     # -- cases
@@ -628,6 +870,10 @@ class RT(fw.Prop):
             P("bool_id", [["add_order", 1, 2]]),
             # D8-D10: operation attributes
             P("poly_func"), P("custom_desc"), P("cfg_delta"),
+            # required schema fields that legitimately hold null must be written (seeded C02-c: to_json with exclude_none)
+            P("poly_nat_unbounded"), P("ext_const_null"),
+            {"kind": "hist", "root": ["module"], "muts": [["add_node", ["funcdecl", "poly.list", "listnat"], 0, None, None],
+                                                          ["add_node", ["const", ["extnull"]], 0, {"k": None}, None]]},
             # D3 (known): index reuse puts a child before its parent / siblings out of index order
             P("nested_after_const", [["delete_node", 3], ["add_node", ["const", ["true"]], 4, None, None]]),
             P("two_consts", [["delete_node", 1], ["add_node", ["const", ["true"]], 0, None, None]]),
@@ -635,6 +881,32 @@ class RT(fw.Prop):
             P("bool_id", [["add_link", 1, 1, 2, 1]]),
             P("two_consts", [["add_order", 1, 2]]),
             P("empty_module"),
+            # D4-D6 (fixed b1a854e, 8297215, 8f40e09): deletion inside a fan-out / fan-in, of a node with order links
+            # and unlinked counted ports; delete_link of the first of several links of a port
+            {"kind": "hist", "root": ["module"], "muts": [
+                ["add_node", ["noop", "B"], 0, None, 3], ["add_node", ["noop", "B"], 0, {"k": 1}, None],
+                ["add_node", ["noop", "B"], 0, None, None], ["add_link", 1, 0, 2, 0], ["add_link", 1, 0, 3, 0],
+                ["add_link", 2, 0, 3, 0], ["add_order", 1, 2], ["add_order", 2, 3], ["delete_node", 2],
+                ["add_order", 1, 3], ["set_md", 3, "k", [0]]]},
+            {"kind": "hist", "root": ["dfg", ["B"], ["B"]], "muts": [
+                ["add_node", ["input", ["B", "I"]], 0, None, None], ["add_node", ["output", ["B"]], 0, None, None],
+                ["add_node", ["not"], 0, None, None], ["add_link", 1, 0, 3, 0], ["add_link", 1, 0, 2, 0], ["add_link", 1, 0, 2, 0],
+                ["add_link", 3, 0, 2, 0], ["delete_link", 1, 0, 3, 0], ["delete_link", 1, 0, 2, 0]]},
+            P("order", [["delete_node", 3], ["delete_link", 1, 0, 4, 0]]),
+            P("nested_after_const", [["add_link", 1, 0, 4, 0], ["delete_link", 1, 0, 4, 0], ["delete_node", 3], ["add_order", 1, 4]]),
+            # insert_hugr inside a history: the inserted HUGR has a deleted node, a fan-out and an order link
+            {"kind": "hist", "root": ["module"], "muts": [
+                ["add_node", ["dfg", ["B"], ["B", "I"]], 0, {"k": 0}, None],
+                ["insert", ["dfg", ["B"], ["B"]], [["add_node", ["input", ["B", "I"]], 0, None, None],
+                                                   ["add_node", ["not"], 0, {"name": "n"}, None], ["add_node", ["not"], 0, None, None],
+                                                   ["add_node", ["output", ["B"]], 0, None, None], ["add_link", 1, 0, 2, 0],
+                                                   ["add_link", 1, 0, 3, 0], ["add_link", 3, 0, 4, 0], ["add_order", 1, 3],
+                                                   ["delete_node", 2]], 1],
+                ["add_link", 3, 0, 1, 0], ["set_md", 4, "k", "v"], ["delete_node", 5]]},
+            # index reuse in a raw history (known D3)
+            {"kind": "hist", "root": ["module"], "muts": [
+                ["add_node", ["dfg", [], []], 0, None, None], ["add_node", ["const", ["true"]], 0, None, None],
+                ["add_node", ["dfg", [], []], 0, None, None], ["delete_node", 2], ["add_node", ["const", ["true"]], 3, None, None]]},
             {"kind": "pkg", "progs": ["poly_func", "two_consts"], "ext": True},
             {"kind": "ext", "which": "custom"},
             # a lowering HUGR inside an extension must be a wire-format document (FixedHugr, fixed c8729f5);
@@ -646,6 +918,10 @@ class RT(fw.Prop):
     def generate(self, rng, tier, ctx):
         n = 90 if tier == "quick" else 900
         cases = []
+        for i in range(45 if tier == "quick" else 600):
+            r = rng.random()
+            cases.append({"kind": "hist", "root": rng.choice(HIST_ROOTS), "nmuts": rng.randint(3, 30),
+                          "mseed": rng.randrange(1 << 30), "reuse": r > 0.85, "off_port": 0.75 < r <= 0.85})
         for i in range(n):
             r = rng.random()
             seed = rng.randrange(1 << 30)
@@ -670,27 +946,43 @@ class RT(fw.Prop):
                               "reuse": reuse, "off_port": off})
         return cases
 
+    def program(self, case):
+        """the HUGR before the mutation history"""
+        from hugr.hugr import Hugr
+        if case["kind"] == "hist":
+            return Hugr(mk_mut_op(case["root"]))
+        if "prog" in case:
+            return named_program(case["prog"])
+        kw = {k: case[k] for k in ("size", "max_depth") if k in case}
+        return progs.run(progs.gen_program(random.Random(case["seed"]), case.get("root"), **kw)).hugr
+
+    def mutate(self, h, case):
+        """-> (mutations applied, outcome of each)"""
+        if "muts" in case:
+            return run_muts(h, copy.deepcopy(case["muts"]))
+        hist = case["kind"] == "hist"
+        return gen_muts(random.Random(case["mseed"]), h, case["nmuts"], off_port=case.get("off_port", False),
+                        reuse=case.get("reuse", False), palette=HIST_OPS if hist else MUT_OPS, inserts=True)
+
     def build(self, case):
         """-> (hugr, mutations applied)"""
-        if "prog" in case:
-            h = named_program(case["prog"])
-        else:
-            kw = {k: case[k] for k in ("size", "max_depth") if k in case}
-            h = progs.run(progs.gen_program(random.Random(case["seed"]), case.get("root"), **kw)).hugr
-        if "muts" in case:
-            applied = [m for m in case["muts"] if apply_mut(h, m)]
-        else:
-            applied = gen_muts(random.Random(case["mseed"]), h, case["nmuts"], off_port=case.get("off_port", False),
-                               reuse=case.get("reuse", False))
+        h = self.program(case)
+        applied, _ = self.mutate(h, case)
         return h, applied
 
     def observe(self, case, ctx):
         from hugr.package import Package
+        self._ctx = ctx
         k = case["kind"]
-        if k == "hugr":
-            h, applied = self.build(case)
+        if k in ("hugr", "hist"):
+            h = self.program(case)
+            planned = bool(case.get("muts")) or case.get("nmuts", 0) > 0
+            start = store_snapshot(h) if (k == "hugr" and planned) else None
+            applied, rets = self.mutate(h, case)
             o = observe_hugr(h, ctx, schema=True)
-            o["muts"] = applied
+            o["muts"], o["rets"] = copy.deepcopy(applied), rets
+            if start is not None and applied:
+                o["start"] = start
             return o
         if k == "pkg":
             hs = [named_program(p) for p in case.get("progs", [])]
@@ -743,11 +1035,25 @@ class RT(fw.Prop):
     def literal(self, case, obs, ctx):
         L = Lit(ctx)
         if "skip" in obs:
-            ctx.stats.setdefault("skipped_inconsistent", 0)
-            ctx.stats["skipped_inconsistent"] += 1
+            ctx.stats.setdefault("skipped_incomplete_operation", 0)
+            ctx.stats["skipped_incomplete_operation"] += 1
             return TRIVIAL
         k = case["kind"]
+        if k == "hist":
+            cs, rets, _ = L.cmds({0: [{}, None]}, obs["muts"], obs["rets"])
+            ctx.stats["histories_tied_to_the_store_model"] = ctx.stats.get("histories_tied_to_the_store_model", 0) + 1
+            noreuse = not history_reuses(obs["muts"])
+            if noreuse:
+                ctx.stats["raw_histories_without_index_reuse"] = ctx.stats.get("raw_histories_without_index_reuse", 0) + 1
+            return "(CHist %s %s %s %s %s)" % (L.spec_opinfo(case["root"]), cs, rets, gbool(noreuse), L.rt(obs))
         if k == "hugr":
+            if "start" in obs:
+                d0 = obs["start"]["dump"]
+                cs, rets, _ = L.cmds({n["idx"]: [n["md"], n["parent"]] for n in d0["nodes"]}, obs["muts"], obs["rets"])
+                ctx.stats["histories_tied_to_the_store_model"] = ctx.stats.get("histories_tied_to_the_store_model", 0) + 1
+                return "(CMut %s %s %s %s)" % (L.store(obs["start"]), cs, rets, L.rt(obs))
+            if obs.get("muts"):
+                ctx.stats["histories_not_tied"] = ctx.stats.get("histories_not_tied", 0) + 1
             return "(CHugr %s)" % L.rt(obs)
         if k == "pkg":
             if "pkg_error" in obs:
@@ -761,14 +1067,15 @@ class RT(fw.Prop):
     def nontrivial(self, case, obs):
         a = obs.get("a")
         if not a:
-            return case["kind"] != "hugr" and "skip" not in obs
+            return case["kind"] not in ("hugr", "hist") and "skip" not in obs
         idxs = [n["idx"] for n in a["nodes"]]
         hole = idxs != list(range(len(idxs)))
         return len(idxs) >= 4 and (hole or any(n["md"] for n in a["nodes"]) or any(l[1] == -1 for l in a["links"]))
 
     def describe(self, case, obs):
         small = {k: obs.get(k) for k in ("skip", "doc_error", "load_error", "doc2_error", "json_same", "pyd", "schema",
-                                         "muts", "header", "same", "pkg_error", "ext_error", "lowering_ok", "ext") if k in obs}
+                                         "muts", "rets", "ports_same", "inconsistent", "header", "same", "pkg_error",
+                                         "ext_error", "lowering_ok", "ext") if k in obs}
         if "a" in obs:
             small["nodes"] = len(obs["a"]["nodes"])
             small["links"] = len(obs["a"]["links"])
@@ -785,15 +1092,23 @@ class RT(fw.Prop):
         return {"input": case, "observed": small}
 
     def signature(self, case, obs, ctx):
-        if case["kind"] != "hugr":
+        if case["kind"] not in ("hugr", "hist"):
             if "ext_error" in obs or "pkg_error" in obs:
                 return "%s:serialization-raises:%s" % (case["kind"], obs.get("ext_error", obs.get("pkg_error")))
             return "%s:%s" % (case["kind"], "schema" if obs.get("schema", "OK") != "OK" else "document")
         if "a" not in obs:
             return "unclassified"
+        raised = [r for r in obs.get("rets", []) if r != "ok"]
+        if raised:
+            return "history:call-raises:" + raised[0]
         if "doc_error" in obs:
             return "to_json-raises:" + obs["doc_error"]
+        if "inconsistent" in obs:
+            return "store:queries-inconsistent"
         g = classify_guard(obs["a"])
+        if any(x.startswith("index-reuse") for x in g) and not history_reuses(obs.get("muts", [])):
+            # the known finding D3 needs an index to be reused: an add_node after a delete_node
+            return "index-order-broken-without-index-reuse"
         if self.which == 2:
             if "index-reuse:child-before-parent" in g:
                 # expected symptom: the child is listed before its parent, load_json raises KeyError
@@ -813,7 +1128,9 @@ class RT(fw.Prop):
                 return "roundtrip:document-differs"
             if not obs.get("pyd"):
                 return "roundtrip:pydantic-validate-dump"
-            return "roundtrip:structure-differs"
+            if not obs.get("ports_same", True):
+                return "roundtrip:linked-ports-differ"
+            return "roundtrip:structure-differs" if case["kind"] == "hugr" else "roundtrip:structure-differs-or-history-guard-lost"
         # C03
         if obs.get("schema", "OK") != "OK":
             return "schema:" + obs["schema"][:80]
@@ -865,7 +1182,7 @@ class RT(fw.Prop):
     # -- shrinking / search
     def _explicit(self, case):
         """the case with its mutation list written out"""
-        if case["kind"] != "hugr" or "muts" in case:
+        if case["kind"] not in ("hugr", "hist") or "muts" in case:
             return case
         _, applied = self.build(case)
         c = {k: v for k, v in case.items() if k not in ("nmuts", "mseed", "reuse", "off_port")}
@@ -873,6 +1190,26 @@ class RT(fw.Prop):
         return c
 
     def shrink(self, case):
+        """smaller variants that fail in the same way: a candidate whose failure has another signature (dropping a
+        mutation renumbers the nodes added later, which can turn the case into one of the known findings) is not
+        offered to the driver"""
+        ctx = getattr(self, "_ctx", None)
+        if ctx is None or case["kind"] not in ("hugr", "hist"):
+            yield from self._shrink_raw(case)
+            return
+        try:
+            sig0 = self.signature(case, self.observe(case, ctx), ctx)
+        except Exception:
+            yield from self._shrink_raw(case)
+            return
+        for c in self._shrink_raw(case):
+            try:
+                if self.signature(c, self.observe(c, ctx), ctx) == sig0:
+                    yield c
+            except Exception:
+                continue
+
+    def _shrink_raw(self, case):
         if case["kind"] == "pkg":
             for key in ("seeds", "progs"):
                 xs = case.get(key, [])
@@ -881,12 +1218,16 @@ class RT(fw.Prop):
             if case.get("ext"):
                 yield {**case, "ext": False}
             return
-        if case["kind"] != "hugr":
+        if case["kind"] not in ("hugr", "hist"):
             return
         c = self._explicit(case)
         ms = c["muts"]
         for i in range(len(ms)):
             yield {**c, "muts": ms[:i] + ms[i + 1:]}
+        for i, m in enumerate(ms):
+            if m[0] == "insert":                    # shorten the history of an inserted HUGR
+                for j in range(len(m[2])):
+                    yield {**c, "muts": ms[:i] + [["insert", m[1], m[2][:j] + m[2][j + 1:], m[3]]] + ms[i + 1:]}
         if "seed" in c:
             size, depth = c.get("size", 6), c.get("max_depth", 3)
             for s, d in ((size // 2, depth), (size - 1, depth), (size, depth - 1)):
@@ -895,6 +1236,11 @@ class RT(fw.Prop):
                         yield {**c, "size": s, "max_depth": d}
 
     def neighbours(self, case, rng):
+        if case["kind"] == "hist":
+            for k in range(60):
+                yield {"kind": "hist", "root": case["root"], "nmuts": rng.randint(2, 25), "mseed": rng.randrange(1 << 30),
+                       "reuse": False, "off_port": False}
+            return
         if case["kind"] != "hugr":
             return
         for k in range(40):
